@@ -24,7 +24,7 @@ import (
 // ------------------------------------------------------------------------------------------------
 // transport corruption (Byzantine relayer)
 
-var corruptKinds = []string{"packet_field", "packet_reencode", "payload_swap", "ack_bytes", "proof_bits", "proof_swap", "proof_trunc", "proof_empty", "height_shift", "signer_swap"}
+var corruptKinds = []string{"packet_field", "packet_reencode", "payload_swap", "ack_bytes", "proof_bits", "proof_swap", "proof_trunc", "proof_empty", "height_shift", "signer_swap", "revision_shift"}
 
 func (w *world) applyCorruption(rm *relayMsg, c *corruption) {
 	kind := c.kind
@@ -145,6 +145,25 @@ func (w *world) applyCorruption(rm *relayMsg, c *corruption) {
 			rm.proofHeight.RevisionHeight -= d
 		} else {
 			rm.proofHeight.RevisionHeight += d
+		}
+	case "revision_shift":
+		// only the revision number of the stated proof height is altered
+		switch kernel.Mod(arg, 4) {
+		case 0:
+			rm.proofHeight.RevisionNumber++
+		case 1:
+			if rm.proofHeight.RevisionNumber > 0 {
+				rm.proofHeight.RevisionNumber--
+			} else {
+				rm.proofHeight.RevisionNumber = 7
+			}
+		case 2:
+			rm.proofHeight.RevisionNumber = 0
+			if from.Revision() == 0 {
+				rm.proofHeight.RevisionNumber = 1
+			}
+		default:
+			rm.proofHeight.RevisionNumber = 1<<64 - 1
 		}
 	case "signer_swap":
 	default:
@@ -437,8 +456,6 @@ func (w *world) afterBlockGov(c *xchain) {
 	}
 	c.proposals = rest
 }
-
-func (w *world) opTSS(op kernel.Op) {}
 
 // opExport: module-level genesis export / validate / import / compare / re-export (C13). The running
 // chain is untouched.
